@@ -41,7 +41,7 @@ PROPS["C20"] = dict(
     props_files=["Chihaya/Props/C20.lean"],
     gen=["validate"],
     facts=["validated_config_use"],
-    streams=[dict(name="C20", quick=8000, thorough=300000)],
+    streams=[dict(name="C20", quick=8000, thorough=300000), dict(name="C06", quick=4000, thorough=100000), dict(name="C07", quick=3000, thorough=100000)],
     rule="cases: the four real Config.Validate methods on boundary products (min, -1, 0, 1, typical, MaxInt/2, MaxInt/2+1, max per field) and random values, "
          "validated twice; registry lookups of known/unknown hook and store names; Redis URL strings; stores constructed from out-of-range "
          "configurations and then used; non-trivial = at least one field defaulted / a refusal / a non-default db (tag != kept), distinct op lines",
@@ -164,12 +164,12 @@ PROPS["C01"] = dict(
 PROPS["C02"] = dict(
     lean_targets=["Chihaya.Props.C02", "Chihaya.Props.Redis"],
     props_files=["Chihaya/Props/C02.lean", "Chihaya/Props/Redis.lean"],
-    streams=[dict(name="C02", quick=24000, thorough=800000)],
+    streams=[dict(name="C02", quick=24000, thorough=800000), dict(name="C01T", quick=3000, thorough=100000)],
     rule=STORE_RULE + "; numwant in {0..8, 50, 2^31, random}, swarms up to 17 peers", trusted=STORE_TRUST, assumptions=[],
 )
 PROPS["C03"] = dict(
-    lean_targets=["Chihaya.Props.C03", "Chihaya.Props.Redis"],
-    props_files=["Chihaya/Props/C03.lean", "Chihaya/Props/Redis.lean"],
+    lean_targets=["Chihaya.Props.C03", "Chihaya.Props.Redis", "Chihaya.Props.C13Store"],
+    props_files=["Chihaya/Props/C03.lean", "Chihaya/Props/Redis.lean", "Chihaya/Props/C13Store.lean"],
     streams=[dict(name="C03", quick=12000, thorough=400000), dict(name="C08", quick=2000, thorough=50000), dict(name="C09", quick=2000, thorough=50000),
              dict(name="C03T", quick=4000, thorough=150000)],
     rule=STORE_RULE + "; plus the HTTP and UDP writer streams (peer entry widths per family); plus C03T: whole-tracker sequences over both frontends on shared infohashes with IPv4, IPv6 and "
@@ -179,7 +179,7 @@ PROPS["C03"] = dict(
 PROPS["C05"] = dict(
     lean_targets=["Chihaya.Props.C05", "Chihaya.Props.Redis"],
     props_files=["Chihaya/Props/C05.lean", "Chihaya/Props/Redis.lean"],
-    streams=[dict(name="C05", quick=18000, thorough=600000)],
+    streams=[dict(name="C05", quick=18000, thorough=600000), dict(name="C04", quick=3000, thorough=100000)],
     rule=STORE_RULE, trusted=STORE_TRUST, assumptions=["mtime is the cached clock (pinned by the harness); boundary mtime = cutoff follows the code (removed)"],
 )
 PROPS["C17"] = dict(
